@@ -41,6 +41,26 @@ CHECKS = {
          "Every i16 value through Error::custom / ErrorCode::Custom and, where defined, the standard variant (code round trip, esr_mask, message); 63 faulty messages (syntax, header, arity, type -> command error; value -> execution error) run on the documented device checking error class and the ESR bit set.",
          "Trusted: the class table in scpimodel::esr_bit_of (15 lines from IEEE 488.2 11.5.1 / SCPI-99 21.8.2); the fault table's classification of each message.",
          "DESIGN.md section 5 (C14)"),
+ "C05": ("fault_enumeration",
+         "exhaustive enumeration of messages of k units with every failure kind at every position, plus formatter faults at every write (ArrayVec capacity sweep), against a reference executor",
+         "All messages of 1..k units over 12 unit kinds (2 ok kinds per form, handler-returned errors from event and from query after a partial write, -108, -109, -104, -222, -113, lexical error in data, lexical error in header) on a flat and a nested-default tree; for every successful message every buffer capacity below the response length. Compared: the exact handler-invocation log (order, multiplicity, nothing after the failing unit), the returned error (code and extended text) and the Device::handle_error log (exactly that error once; never on success).",
+         "Trusted: the reference executor (expect/judge in c05.rs), the reference response layout used to locate the failing unit under a capacity fault. Formatter faults other than exhaustion cannot be injected from outside the crate (ResponseUnit has private fields).",
+         "DESIGN.md section 5 (C05)"),
+ "C06": ("exploration",
+         "exhaustive enumeration of (data tuple, pull pattern, unit position, follower) combinations with token ranges compared as byte offsets",
+         "Every n-tuple of data representatives of all seven 488.2 types (incl. strings/blocks containing separators) x every required/optional pull pattern x unit position x follower x event/query. Pulls must hand out exactly the unit's own elements (type and byte range), then -109 / None; leftovers give -108 and the next unit does not start; neighbours never receive the observed unit's data.",
+         "Trusted: the element table with hand-written payload ranges. Tuples longer than the bound and more than 4 pulls are outside.",
+         "DESIGN.md section 5 (C06)"),
+ "C10": ("exploration",
+         "exhaustive enumeration of successful messages up to k units x separators x endings, byte-exact comparison with reference framing on Vec and ArrayVec buffers",
+         "Every sequence of up to 3/4 units over 13 unit kinds (events, queries with 1-5 data of all types, one- and two-level response headers, relative/common headers) x 3 unit-separator spellings x 8 message endings; the output buffer must equal the hand-written unit texts joined by `;` with exactly one NL iff there is output.",
+         "Trusted: the hand-written expected response text per unit kind. How an empty response unit is framed is not judged.",
+         "DESIGN.md section 5 (C10)"),
+ "C11": ("fault_enumeration",
+         "for every message every ArrayVec capacity 0..|R|+2 (exhaustion at every write) with a counting global allocator armed around each run",
+         "Every C10-style message up to 2/3 units plus queries of every formattable type family, at every capacity from 0 to beyond the full response: fits => identical bytes, does not fit => -225 once, buffer a prefix of the full response, never a panic; zero allocator calls in every run, including all strings up to length 3/4 over a lexical alphabet (error paths) with a pull-and-convert-everything handler.",
+         "Trusted: the counting allocator (self-checked), ArrayVec as the fixed-capacity buffer. Capacities above 256 are not instantiated.",
+         "DESIGN.md section 5 (C11)"),
 }
 
 NOT_YET = "check not built yet (planned: DESIGN.md section 5 describes the bounded exhaustive exploration that will decide it)"
